@@ -27,7 +27,7 @@ type c09KillCase struct {
 	Rate      int  `json:"rate_per_s"`
 	AfterResp int  `json:"kill_after_responses"`
 	HoldMs    int  `json:"then_wait_ms"`
-	Fifo      bool `json:"output_is_a_stalled_fifo,omitempty"` // the reader of the output does not read until the kill
+	Fifo      bool `json:"output_is_a_stalled_fifo,omitempty"`             // the reader of the output does not read until the kill
 	StuckAt   int  `json:"request_that_never_gets_its_response,omitempty"` // the n-th request (1-based) is held by the server until after the kill
 }
 
